@@ -12,11 +12,12 @@ Obs4(n) == << <<"len", n>>, <<"marshal", n>>, <<"len", n>>, <<"marshal", n>> >>
 Watch(els) == Flat([i \in DOMAIN els |-> << <<"len", els[i].n>>, <<"marshal", els[i].n>> >>])
 TreeMap(els) == [x \in {els[i].n : i \in DOMAIN els} |-> els[CHOOSE i \in DOMAIN els : els[i].n = x].tree]
 \* top: the message; watched: children also observed standalone (their encodings must appear inside the parent intact)
-Emit(fam, top, watched) ==
+EmitK(fam, top, watched, kids) ==
   PrintT(ToJson([k |-> "build", fam |-> fam, top |-> top.n, ops |-> top.ops,
                  observe |-> Watch(watched) \o Obs4(top.n),
-                 kids |-> [i \in DOMAIN watched |-> watched[i].n],
+                 kids |-> kids,
                  trees |-> TreeMap(<<top>> \o watched)]))
+Emit(fam, top, watched) == EmitK(fam, top, watched, [i \in DOMAIN watched |-> watched[i].n])
 Sel(k) == k % Stride = Phase
 ActSeqIn(cont, n, acts, tag) ==   \* a top-level message holding the action list in container kind cont
   CASE cont = "apply" -> FlowModEl(n, 0, <<>>, <<InstrActs(Nm(n, 50), "apply", [i \in DOMAIN acts |-> <<acts[i], FALSE>>])>>, tag)
@@ -112,9 +113,72 @@ NextB == \E shape \in {"pktout-data", "flowmod-actions", "groupmod-buckets", "ma
                       Emit("B", GroupModEl("m", 0, 1, [i \in 1..1500 |-> BucketEl("b" \o ToString(i), <<LeafAct("b" \o ToString(i) \o "a", "group", i)>>, i)], tag), <<>>)
                  [] shape = "match-fields" ->
                       Emit("B", FlowModEl("m", 0, [i \in 1..600 |-> MF("f" \o ToString(i), 1 + (i % NMF), i, FALSE)], <<>>, tag), <<>>)
+
+\* learn specs: every header kind x immediate / field widths, alone and followed by a second spec
+LKinds == {"mv", "mf", "lv", "lf", "of"}
+LBits == {1, 7, 8, 9, 15, 16, 17, 24, 31, 32, 33, 48, 64, 65, 128}
+NextL == \E k1 \in LKinds, b1 \in LBits, two \in BOOLEAN, tag \in Tags :
+            LET s1 == LearnSpecEl("s1", k1, b1, tag)
+                s2 == LearnSpecEl("s2", (<<"lf", "mv", "of", "lv", "mf">>)[1 + ((b1 + tag) % 5)], (<<16, 8, 13, 32, 1>>)[1 + (b1 % 5)], tag + 5)
+                specs == IF two THEN <<s1, s2>> ELSE <<s1>>
+                lrn == LearnEl("a1", specs, tag) IN
+            /\ c' = <<k1, b1, two, tag>>
+            /\ EmitK("L", ActSeqIn("apply", "m", <<lrn, LeafAct("a2", "output", tag)>>, tag), <<lrn>> \o specs, <<"a1">>)
+\* optional parts: every presence combination of the NAT ranges; note and id-list lengths
+NatParts == {"4min", "4max", "6min", "6max", "pmin", "pmax"}
+NextN == \E tag \in Tags :
+           \/ \E parts \in SUBSET NatParts :
+                /\ c' = <<parts, tag>>
+                /\ LET nat == NatEl("a1", parts, tag) IN
+                   Emit("N", ActSeqIn("ct", "m", <<nat>>, tag), <<nat>>)
+           \/ \E len \in 0..17 :
+                /\ c' = <<"note", len, tag>>
+                /\ LET a == NoteEl("a1", len, tag) IN Emit("N", ActSeqIn("apply", "m", <<a, LeafAct("a2", "group", tag)>>, tag), <<a>>)
+           \/ \E k \in 0..9 :
+                /\ c' = <<"ids", k, tag>>
+                /\ LET a == CntIDs("a1", k, tag) IN Emit("N", ActSeqIn("bucket", "m", <<a, LeafAct("a2", "group", tag)>>, tag), <<a>>)
+\* top-down construction: a container is attached first and grows afterwards (framing and repeatability are still required;
+\* the eager length bookkeeping of some adders makes nested lengths stale, so only C01 / C13 are judged on this family)
+EmitTD(top) == PrintT(ToJson([k |-> "build", fam |-> "T", nospec |-> TRUE, top |-> top.n, ops |-> top.ops, observe |-> Obs4(top.n) \o Obs4(top.n),
+                              kids |-> <<>>, trees |-> [x \in {top.n} |-> [T |-> top.tree.T, Type |-> (IF "Type" \in DOMAIN top.tree THEN top.tree.Type ELSE <<0>>)]]]))
+NextT == \E shape \in {"instr-then-actions", "ct-then-nat-ranges", "instr-then-ct-actions", "bucket-then-note", "pktout-then-learnspecs",
+                       "instr-actions-after-flowmod", "ct-in-bucket-then-actions"}, tag \in Tags :
+            /\ c' = <<shape, tag>>
+            /\ LET out == LeafAct("o1", "output", tag)  grp == LeafAct("g1", "group", tag)
+                   fm(ops) == El("m", [T |-> "FlowMod"], ops)
+                   newFM == <<New("m", "NewFlowMod", <<>>), Set("m", "Xid", Xid(tag))>>
+               IN
+               CASE shape = "instr-actions-after-flowmod" ->
+                      EmitTD(fm(out.ops \o grp.ops \o newFM \o <<New("i", "NewInstrApplyActions", <<>>), Call("m", "AddInstruction", <<Ref("i")>>),
+                                 Call("i", "AddAction", <<Ref("o1"), FALSE>>), Call("i", "AddAction", <<Ref("g1"), TRUE>>)>>))
+                 [] shape = "instr-then-actions" ->
+                      EmitTD(fm(out.ops \o newFM \o <<New("i", "NewInstrWriteActions", <<>>), Call("m", "AddInstruction", <<Ref("i")>>),
+                                 New("n1", "NewNXActionNote", <<>>), Call("i", "AddAction", <<Ref("n1"), FALSE>>), Set("n1", "Note", V(tag, 21)),
+                                 Call("i", "AddAction", <<Ref("o1"), FALSE>>)>>))
+                 [] shape = "ct-then-nat-ranges" ->
+                      EmitTD(fm(newFM \o <<New("i", "NewInstrApplyActions", <<>>), New("ct", "NewNXActionConnTrack", <<>>), New("nat", "NewNXActionCTNAT", <<>>),
+                                 Call("ct", "AddAction", <<Ref("nat")>>), Call("nat", "SetRangeIPv4Min", <<V(tag, 4)>>), Call("nat", "SetRangeIPv4Max", <<V(tag + 1, 4)>>),
+                                 Call("i", "AddAction", <<Ref("ct"), FALSE>>), Call("m", "AddInstruction", <<Ref("i")>>)>>))
+                 [] shape = "instr-then-ct-actions" ->
+                      EmitTD(fm(out.ops \o grp.ops \o newFM \o <<New("i", "NewInstrApplyActions", <<>>), New("ct", "NewNXActionConnTrack", <<>>),
+                                 Call("i", "AddAction", <<Ref("ct"), FALSE>>), Call("m", "AddInstruction", <<Ref("i")>>),
+                                 Call("ct", "AddAction", <<Ref("o1")>>), Call("ct", "AddAction", <<Ref("g1")>>)>>))
+                 [] shape = "bucket-then-note" ->
+                      EmitTD(El("m", [T |-> "GroupMod"], <<New("m", "NewGroupMod", <<>>), Set("m", "Xid", Xid(tag)), New("b", "NewBucket", <<>>),
+                                 New("n1", "NewNXActionNote", <<>>), Call("b", "AddAction", <<Ref("n1")>>), Set("n1", "Note", V(tag, 30)),
+                                 Call("m", "AddBucket", <<Ref("b")>>)>>))
+                 [] shape = "ct-in-bucket-then-actions" ->
+                      EmitTD(El("m", [T |-> "GroupMod"], out.ops \o <<New("m", "NewGroupMod", <<>>), Set("m", "Xid", Xid(tag)), New("b", "NewBucket", <<>>),
+                                 New("ct", "NewNXActionConnTrack", <<>>), Call("b", "AddAction", <<Ref("ct")>>), Call("ct", "AddAction", <<Ref("o1")>>),
+                                 Call("m", "AddBucket", <<Ref("b")>>)>>))
+                 [] shape = "pktout-then-learnspecs" ->
+                      LET sp == LearnSpecEl("s1", "lv", 24, tag) IN
+                      EmitTD(El("m", [T |-> "PacketOut"], sp.ops \o <<New("m", "NewPacketOut", <<>>), Set("m", "Xid", Xid(tag)), New("l", "NewNXActionLearn", <<>>),
+                                 Call("m", "AddAction", <<Ref("l")>>), Set("l", "LearnSpecs", <<Ref("s1")>>), Call("m", "SetData", <<V(tag, 10)>>)>>))
 Init == c = <<>>
 Next == c = <<>> /\ CASE Family = "A1" -> NextA1 [] Family = "A2" -> NextA2 [] Family = "M1" -> NextM1 [] Family = "M2" -> NextM2
                       [] Family = "MR" -> NextMR [] Family = "I" -> NextI [] Family = "G" -> NextG [] Family = "S" -> NextS
                       [] Family = "W" -> NextW [] Family = "O" -> NextO [] Family = "P" -> NextP [] Family = "B" -> NextB
+                      [] Family = "L" -> NextL [] Family = "N" -> NextN [] Family = "T" -> NextT
 Spec == Init /\ [][Next]_c
 =============================================================================
